@@ -188,6 +188,27 @@ def graph_without_parameter_table():
     return lambda pkg: run_obligation(pkg, fn, max_paths=128)
 
 
+def sized_graph_roundtrip(n_lines):
+    """A graph whose file has exactly n_lines lines (point vertices only): every one of them comes back, once, in order."""
+    def fn(it):
+        it.vfs = {}
+        vs = [build_vertex(it, "PoseR2", "v%d" % k) for k in range(n_lines)]
+        g = it.construct("Graph", [[], list(vs)])
+        it.call_method(g, "to_g2o", ["big.g2o"])
+        written = len(it.vfs["big.g2o"].text_lines())
+        if written != n_lines:
+            raise ObFail("a graph of %d vertices is written as %d lines" % (n_lines, written))
+        cur = it.call_classmethod(ClassRef("Graph"), "from_g2o", ["big.g2o"])
+        v2 = gp(cur, "_vertices")
+        if len(v2) != n_lines:
+            raise ObFail("%d vertices exported, %d read back" % (n_lines, len(v2)))
+        for k in (0, 1, n_lines // 2, n_lines - 2, n_lines - 1):
+            if 0 <= k < n_lines:
+                same_vertex(it, v2[k], vs[k], "vertex #%d of a %d-line file after export/import" % (k, n_lines))
+        return dict(lines=n_lines)
+    return lambda pkg: _run_obligation(pkg, fn, hook=distinct_names_hook, max_paths=16, allow_size_thresholds=True)
+
+
 def run(run_, pkg, tier):
     run_.explanation = ("Writers and readers are composed on the text model of gsverif.g2o: every object kind (4 vertex types, 2 odometry "
                         "and 2 landmark edge types, 2 offset parameters) is exported by the repo's own to_g2o and re-imported by the "
@@ -224,5 +245,17 @@ def run(run_, pkg, tier):
         add("C13-roundtrip/Graph/cycles=%d" % c, "C13-L3-graph-order", graph_roundtrip(c), gt)
     add("C13-roundtrip/Graph/se2-offset-parameter-with-id-0", "C13-L3-graph-order", graph_roundtrip(1, se2_param_id=0), gt)
     add("C13-refuse/Graph/landmark-edges-without-parameter-table", "C13-L4-refuse-rather-than-alter", graph_without_parameter_table(), gt)
-    record(run_, tasks, run_tasks(pkg, tasks))
+    results = run_tasks(pkg, tasks)
+    record(run_, tasks, results)
+    # the writer / reader tests the number of lines against constants (blocks, thresholds): aim file sizes at them
+    from ..algebra import size_constants
+    consts = [c for c in size_constants(results) if c <= 2048]
+    if consts:
+        extra = []
+        for c in consts[:2]:
+            for k in sorted({c - 1, c, c + 1}):
+                if k >= 1:
+                    extra.append(("C13-roundtrip/Graph/%d-lines (directed at the size constant %d in the code)" % (k, c), "C13-L3-graph-order",
+                                  sized_graph_roundtrip(k), "%s:%d" % (gt._gs_module, gt.lineno)))
+        record(run_, extra, run_tasks(pkg, extra))
     run_.floor("C13 obligations", len(tasks) if run_.only is None else 17, 17)
